@@ -1366,6 +1366,24 @@ fn gen_case(rng: &mut Rng, n: u64) -> CaseIn {
         3 => Some(("pco", false)), 4 => Some(("lz4", false)), 5 => Some(("zstd", false)),
         _ => None,
     };
+    if n == 6 || n == 7 || n == 8 {
+        // directed: the write path right after the rollback of a truncating commit (stored_len above the on-disk
+        // length, the tail in the overlay), with the LAST restored slot / a middle restored slot deleted or values
+        // pushed before the commit: afterwards the region must back every stored slot (every stored-bound read
+        // path is then drawn over it)
+        let kind = ["bytes", "zc", "bytesn"][(n - 6) as usize].to_string();
+        let total = rng.range(8, 40) as usize;
+        let cut = total - rng.range(2, 5) as usize;
+        let mut ops: Vec<String> = vec![format!("p:{total}"), "s".into(), format!("t:{cut}"), "s".into(), "r".into()];
+        match rng.below(3) {
+            0 => ops.push(format!("d:{}", total - 1)),
+            1 => ops.push(format!("d:{}", cut + rng.below((total - cut) as u64) as usize)),
+            _ => ops.push(format!("p:{}", rng.range(1, 4))),
+        }
+        ops.push("s".into());
+        let reads = vec![format!("?{}", rng.range(14, 20))];
+        return CaseIn { kind, ssc: 3, phases: vec![Phase { ops, reads }] };
+    }
     let mut kind = rng.pick(&kinds).to_string();
     if let Some((k, _)) = forced { kind = k.to_string(); }
     let raw = matches!(kind.as_str(), "bytes" | "bytesn" | "zc");
